@@ -346,7 +346,11 @@ func handleRefreshRequest(req Request, stunMsg *stun.Message) error {
 	}
 
 	if lifetimeDuration != 0 {
-		a.Refresh(lifetimeDuration)
+		// The allocation can expire between the lookup above and this point; a success
+		// response would then promise a lifetime for an allocation that no longer exists.
+		if !a.Refresh(lifetimeDuration) {
+			return fmt.Errorf("%w %v:%v", errNoAllocationFound, req.SrcAddr, req.Conn.LocalAddr())
+		}
 	} else {
 		req.AllocationManager.DeleteAllocation(fiveTuple)
 	}
